@@ -374,7 +374,7 @@ func TestC10(t *testing.T) {
 		ID:   "C10",
 		Rule: "50% single atoms (literal with every documented escape form, class with runes/ranges/\\d\\w\\s/\\p{..}/negation/subtraction [..-[..]] and -\\p{..}, standalone \\p{..} \\P{..} \\p{^..} \\pL, '.'), 30% whole patterns (concatenation, alternation, * + ? {n} {n,} {n,m}, (?i:..) (?-i:..) groups), 20% malformed patterns from a catalogue of 18 classes (non-hex digits, too few digits, code points above 10FFFF/overflowing, bad octal, inverted ranges, range ending in a class, unbalanced parens/brackets, bad quantifiers, trailing backslash, unknown \\p names/escapes/flags/references, invalid UTF-8, byte-mode classes above 0xff), each under no/global/(?i) case folding and rune/byte mode. Atoms: the single-rule lex table is scanned on one code point per probe (class boundaries +-1, SymbolMap boundaries, fold orbits, fixed hot spots, 300 random; thorough: 1 in 30 atoms swept over ALL code points) and compared with per-code-point membership computed from Go's unicode tables. Patterns: 60 generated strings each, (size, action) compared with a set-based matcher incl. the invalid-token length. Malformed: must fail with a ParseError located inside the pattern. Non-trivial: atom combining >=2 features (fold, byte mode, negation, subtraction, \\p), pattern with both matching and non-matching inputs, any malformed pattern; distinct by spec JSON.",
 		Assume: []string{"\\w and \\W and Unicode properties are not generated in case-insensitive contexts, standalone \\xHH/octal >= 0x80 not in byte mode, a leading quantifier character is a literal (shipped grammars rely on /+/): their meaning is not documented", "surrogate code points cannot be encoded in a Go string and are skipped"},
-		Quick: 20000, Thorough: 200000,
+		Quick: 20000, Thorough: 100000,
 		Gen:   c10Gen,
 		Check: c10Check,
 	}
